@@ -115,7 +115,15 @@ def attribute(fd_list, doc, key, schema, value, dump, answer=""):
             if pairs and hit2(value): return fd
         if fd["id"] == "C02-native-default-panic" and answer == "panic" and '"format"' in txt and '"default"' in txt:
             return fd
-        if fd["id"] == "C02-uint-format" and ('"uint"' in txt or '"int"' in txt): return fd
+        if fd["id"] == "C02-uint-format" and ('"uint"' in txt or '"int"' in txt):
+            # the instance holds an integer that a 32-bit type cannot (what u32 / i32 for usize / isize rejects)
+            def big(v):
+                if isinstance(v, bool): return False
+                if isinstance(v, int): return v > 2**31 - 1 or v < -2**31
+                if isinstance(v, list): return any(big(x) for x in v)
+                if isinstance(v, dict): return any(big(x) for x in v.values())
+                return False
+            if big(value): return fd
     return None
 
 def run(ctx):
